@@ -191,6 +191,18 @@ IsRelay(m) == "hops" \in DOMAIN m
 Enc6(m) == IF IsRelay(m) THEN <<m.mt, m.hops>> \o m.link \o m.peer \o EncOptsT("main", m.opts)
            ELSE <<m.mt>> \o m.xid \o EncOptsT("main", m.opts)
 
+\* The only change a decode -> encode round may make to a value (C06): an embedded DHCPv4 packet has its
+\* server-name / boot-file fields cut to their NUL-terminated capacity (Dhcp4Wire!Canon), recursively.
+RECURSIVE Canon6(_), CanonOpts6(_, _), CanonFields6(_, _, _)
+CanonField6(f, v) ==
+    CASE f.k = "OPTS" -> CanonOpts6(f.t, v)
+      [] f.k = "MSG" -> Canon6(v)
+      [] f.k = "V4" -> Canon(v)
+      [] OTHER -> v
+CanonFields6(lay, vs, k) == IF k > Len(lay) THEN <<>> ELSE <<CanonField6(lay[k], vs[k])>> \o CanonFields6(lay, vs, k + 1)
+CanonOpts6(tab, os) == [i \in 1..Len(os) |-> [c |-> os[i].c, v |-> CanonFields6(Lay(tab, os[i].c), os[i].v, 1)]]
+Canon6(m) == [m EXCEPT !.opts = CanonOpts6("main", m.opts)]
+
 \* the verdict on one recorded decode: outcome `ok` with value `val` for input b
 \* (a recorded value whose shape cannot be compared with the specification's value makes TLC stop
 \* with a type error; the runner counts that line as a mismatch and goes on)
